@@ -619,7 +619,7 @@ func (c10) Run(t *tape.Tape, cfg sim.Config) (res sim.Result) {
 	modNotify := map[int]*int{}   // by module id
 	var panics []string
 	moduleCloser := map[api.Module]int{}  // module -> task id + 1 of the task inside a module-level Close of it
-	var stillRegisteredAtNotify []string // names found still registered while their close notification ran
+	var stillRegisteredAtNotify []string  // names found still registered while their close notification ran
 	closedCompiledBins := map[int]int64{} // bin -> earliest call stamp of a compiled-handle close
 
 	type clientState struct {
